@@ -36,6 +36,15 @@ CLAIMED['C07'] = dict(
          'float/complex levels apply the same operation to the converted operands (routing and operand order; float arithmetic is uninterpreted); zero divisors raise.',
     note='Trusted: num-rational/num-bigint implement Q/Z; conversions to f64 as modelled. Outside: float rounding, ^ with non-integer exponent, vector broadcasting wrappers, lowest-terms normalisation.',
     design='§7 C07', technique='symbolic execution of rustc MIR + SMT (z3) over Int/Real, uninterpreted float operations')
+CLAIMED['C10'] = dict(
+    text='Two solver-based engines. Kani/CBMC over the compiled code decides pythonic_index_isize, clamped_pythonic_index and pythonic_slice against Python\'s rule '
+         '(i128 oracle) for EVERY isize index/bound and EVERY length 0..=isize::MAX with overflow checks on (zero-sized-element slice of symbolic length, unwinding assertions on, '
+         'cover witnesses). mirsym decides the same kernels in the release profile (overflow-checks=off MIR) and the Obj-level entry points index, slice_seq, obj_cyclic_index, '
+         'safe_index for lists, vectors, bytes and ASCII strings of length 0..3 (quick) / 0..5 (thorough) with the index/bounds arbitrary values of every kind '
+         '(all integers in both representations, rationals, floats, null, omitted).',
+    note='Trusted: Kani\'s model of the dev profile with std::fmt::format stubbed (error text only); num-bigint to_isize/to_usize contract; std slice indexing. '
+         'Outside: streams (C11), non-ASCII strings, the take/drop/first/last/... one-line builtins, dict indexing (C09).',
+    design='§7 C10', technique='Kani/CBMC bounded model checking + symbolic execution of rustc MIR with z3', engine='kani+mirsym')
 NOT_APPLICABLE = {
  'C13': 'sequence library vs executable specification: the deciding content is std collections glued by one-line closures over whole sequences; not encodable as a bounded solver query over noulith code (DESIGN §9); parts decided under C08/C09/C10/C11/C14',
  'C17': 'freeze: semantic equivalence of two recursive traversals over programs; a bounded solver query cannot carry it (DESIGN §9)',
